@@ -353,6 +353,43 @@ def stale_skip_witness(run: Any) -> str | None:
     return None
 
 
+def stale_message_after_rearm_witness(run: Any) -> str | None:
+    """Mechanism classifier (same root as the two above: messages carry no iteration): a StartTask / RunTask /
+    CompleteTask / CompleteStage message of a stage was queued BEFORE a jump or an operator restart re-armed that
+    stage (whatever its status then: RUNNING, CANCELED, ...) and took effect on the re-armed stage AFTERWARDS."""
+    import json as _json
+
+    groups = Groups(run.commits)
+    rearms: dict[str, list[int]] = defaultdict(list)
+    for a in run.audit:
+        if a["kind"] == "status" and a["op"] == "stage" and a["d"] == "NOT_STARTED":
+            tag = groups.tag(groups.of(a["seq"]))
+            if tag and tag[0] in ("JumpToStage", "RestartStage"):
+                rearms[a["a"]].append(a["seq"])
+    if not rearms:
+        return None
+    pushed: dict[str, tuple[int, str, str]] = {}
+    for a in run.audit:
+        if a["kind"] == "queue" and a["op"] == "ins" and a["c"] in ("StartTask", "RunTask", "CompleteTask", "CompleteStage"):
+            try:
+                sid = _json.loads(a["d"] or "{}").get("stage_id")
+            except Exception:
+                sid = None
+            if sid:
+                pushed[str(a["a"])] = (a["seq"], a["c"], sid)
+    for a in run.audit:
+        if a["kind"] != "status" or a["op"] not in ("stage", "task"):
+            continue
+        tag = groups.tag(groups.of(a["seq"]))
+        if not tag or str(tag[1]) not in pushed or pushed[str(tag[1])][1] != tag[0]:
+            continue
+        pseq, typ, sid = pushed[str(tag[1])]
+        between = [r for r in rearms.get(sid, ()) if pseq < r < a["seq"]]
+        if between:
+            return f"{typ} row {tag[1]} was queued at seq {pseq}, its stage was re-armed at seq {between[0]} (jump / operator restart), and the message took effect on the re-armed stage at seq {a['seq']}"
+    return None
+
+
 def attribute(violations: list[dict], run: Any, prop: str) -> list[dict]:
     """Re-sign the violations of a run whose failure is explained by a classified mechanism."""
     if not violations:
@@ -366,6 +403,9 @@ def attribute(violations: list[dict], run: Any, prop: str) -> list[dict]:
     w = stale_skip_witness(run)
     if w:
         return [viol(f"{prop}/stale-skip-of-the-previous-iteration-applied-after-the-jump", f"{w}; symptoms: {[v['sig'] for v in violations][:4]}")]
+    w = stale_message_after_rearm_witness(run)
+    if w:
+        return [viol(f"{prop}/stale-message-of-the-previous-arming-handled-after-the-re-arm", f"{w}; symptoms: {[v['sig'] for v in violations][:4]}")]
     return violations
 
 
